@@ -44,8 +44,8 @@ func (rc *relCounter) list(t *rapid.T, label string, max int) []string {
 	return out
 }
 
-var semverPre = rapid.StringMatching(`(alpha|beta|rc|pre)(\.[0-9]{1,2})?(-[a-z0-9]{1,3})?`)
-var semverMeta = rapid.StringMatching(`(git|build|p)?[0-9a-f]{1,6}(\.[0-9]{1,2})?`)
+var semverPre = rapid.StringMatching(`(alpha|beta|rc|pre)(\.(0|[1-9][0-9]?))?(-[a-z0-9]{1,3})?`) // numeric identifiers without leading zeros
+var semverMeta = rapid.StringMatching(`(git|build|p)?[0-9a-f]{1,6}(\.[0-9]{1,2})?(-[0-9a-z]{1,4})?`) // build metadata may contain hyphens
 
 // genFullMeta draws identity, version parts, descriptive fields and relations.
 func genFullMeta(t *rapid.T, c *BuildCase) {
@@ -62,6 +62,10 @@ func genFullMeta(t *rapid.T, c *BuildCase) {
 	if rapid.Bool().Draw(t, "meta?") {
 		m.VersionMetadata = semverMeta.Draw(t, "meta")
 	}
+	// version components may live inside the version string instead of their own keys
+	m.EmbedPre = m.Prerelease != "" && rapid.IntRange(0, 2).Draw(t, "embedpre") == 0
+	m.EmbedMeta = m.VersionMetadata != "" && rapid.IntRange(0, 2).Draw(t, "embedmeta") == 0
+	m.VPrefix = rapid.IntRange(0, 4).Draw(t, "vprefix") == 0
 	if rapid.Bool().Draw(t, "release?") {
 		m.Release = fmt.Sprint(rapid.IntRange(1, 12).Draw(t, "release"))
 	}
@@ -88,6 +92,11 @@ func genFullMeta(t *rapid.T, c *BuildCase) {
 	m.Recommends = rc.list(t, "recommends", 3)
 	m.Suggests = rc.list(t, "suggests", 3)
 	m.Conflicts = rc.list(t, "conflicts", 3)
+	// the same name under several relations (the usual rename pattern: replaces + conflicts + provides)
+	if len(m.Replaces) > 0 && rapid.IntRange(0, 3).Draw(t, "rename-pattern") == 0 {
+		m.Conflicts = append(m.Conflicts, m.Replaces[0])
+		m.Provides = append(m.Provides, m.Replaces[0])
+	}
 	c.Constraints = rapid.Bool().Draw(t, "constraints")
 	x := &Extras{}
 	c.X = x
